@@ -1193,7 +1193,56 @@ fn gen_c12(k: usize, rng: &mut Rng) -> Spec {
 
 /// C01 (visual trackers): exact duplicates (same box + feature, same feature + shifted box, 2-4 copies), crowded calls,
 /// objects appearing / disappearing, with / without features, several scenes, IoU / Mahalanobis, shards 1-4.
+/// crowded frames: 64 / 65 / 100 / 200 well-separated detections with distinct custom ids (a few exact duplicates), 2-3
+/// frames so that the tracks continue; record i has to echo detection i
+fn gen_c01_crowded(k: usize, rng: &mut Rng) -> Spec {
+    let mut s = base_spec(k, rng);
+    s.trk = if rng.chance(1, 2) { "bvs".into() } else { "vs".into() };
+    s.shards = 1 + rng.below(4) as usize;
+    s.idle = 2;
+    s.hist = 2;
+    s.maxobs = 3;
+    s.minlen = 1;
+    s.votes = 1;
+    s.quse = 0.0;
+    s.qcol = 0.0;
+    s.minarea = 0.0;
+    s.ownuse = 0.0;
+    s.owncol = 0.0;
+    let n = *rng.pick(&[64usize, 65, 100, 200]);
+    let frames = 2 + rng.below(2) as usize;
+    let with_feat = rng.chance(2, 3);
+    let ndup = rng.below(4) as usize;
+    let scene = rng.below(3);
+    let mut uid: u32 = 1;
+    for f in 0..frames {
+        let mut dets = vec![];
+        for ob in 0..n {
+            let (col, row) = (ob % 16, ob / 16);
+            let l = 10.0 + col as f32 * 60.0 + f as f32 * 0.5;
+            let t = 10.0 + row as f32 * 80.0;
+            let feat = if with_feat { Some(vec![col as f32, row as f32, 1.0 + (ob % 7) as f32 * 0.25]) } else { None };
+            let copies = if ob < ndup { 2 } else { 1 };
+            for _ in 0..copies {
+                if uid >= 2040 {
+                    break;
+                }
+                dets.push(Det { uid, q: Some(0.75), l, t, w: 20.0, h: 30.0, feat: feat.clone() });
+                uid += 1;
+            }
+        }
+        if rng.chance(1, 2) {
+            rng.shuffle(&mut dets);
+        }
+        s.calls.push((scene, dets));
+    }
+    s
+}
+
 fn gen_c01(k: usize, rng: &mut Rng) -> Spec {
+    if k % 25 == 7 {
+        return gen_c01_crowded(k, rng);
+    }
     let mut s = base_spec(k, rng);
     s.trk = if rng.chance(1, 3) { "bvs".into() } else { "vs".into() };
     s.shards = 1 + rng.below(4) as usize;
@@ -1847,7 +1896,9 @@ fn main() {
             for k in 0..a.n {
                 let mut rng = Rng::new(a.seed.wrapping_mul(9_000_011).wrapping_add(k as u64));
                 let s = gen_c01(k, &mut rng);
-                run_spec(&s, true, false);
+                // no oracle tables for the crowded frames (tens of thousands of pairs, not needed by the C01 oracle)
+                let crowded = s.calls.iter().any(|(_, d)| d.len() >= 48);
+                run_spec(&s, !crowded, false);
             }
         }
         "c04" => {
